@@ -18,7 +18,7 @@ PUPPETS_DEEP = ["deep6"]          # recursion depth 100: C05 thorough only (long
 OWN = {
     "C01": {"missed_breakpoint_hit", "spurious_stop", "stop_out_of_order", "stop_reason_wrong",
             "pc_not_in_execution", "place_ne_pc", "line_ne_pc_line", "command_failed", "exit_not_reported"},
-    "C02": {"residual_patch", "breakpoint_not_patched", "output_differs", "exit_status_differs", "run_to_exit_failed"},
+    "C02": {"command_moved_program", "residual_patch", "breakpoint_not_patched", "output_differs", "exit_status_differs", "run_to_exit_failed"},
     "C03": {"signal_stop_moved_program", "pc_not_in_execution", "ran_to_exit", "went_backwards", "stopped_before_return", "wrong_caller_frame",
             "not_one_instruction", "deeper_activation_same_function", "inside_callee_past_boundary",
             "past_first_line_boundary", "inside_callee", "not_a_statement_boundary", "not_admissible",
@@ -114,6 +114,10 @@ def to_script(p, hist, probes, by=None, rng=None):
                 cmds.append({"cmd": f"{verb}_line", "file": p.src.name, "line": arg})
             else:
                 cmds.append({"cmd": f"{verb}_fn", "name": arg})
+        elif c["cmd"] == "watch":
+            cmds.append({"cmd": "watch_addr", "addr": sesslib.nm_symbols(p.exe)["WATCHME"][0], "size": 8})
+        elif c["cmd"] == "call":
+            cmds.append({"cmd": "call", "fn": "probe_id", "arg": 7})
         else:
             cmds.append(dict(c))
     return {"tick": p.meta["tick_addr"], "src": p.src.name, "probes": probes, "cmds": cmds}
